@@ -158,19 +158,22 @@ def raft_run(ctx, note=True):
     return res
 
 
-FRAGMENT = ('fragment of Props/TierC3.v (TierC2.v: the same without chunked entries, TierC.v: also without compaction): static '
-            'membership, no dump file, 1 < batch, voters never restart, no snapshot refused for its code version; commands of any '
+FRAGMENT = ('fragment of Props/TierC4.v (TierC3.v: the same without dump files, TierC2.v: also without chunked entries, TierC.v: also '
+            'without compaction): static membership, 1 < batch, voters never restart, no snapshot refused for its code version, nothing '
+            'delivered to a node with a dump file before its first tick (the code polls only inside a tick); commands of any '
             'size (entries sent in pieces), log compaction and snapshot install on voters and read-only nodes, read-only nodes, drops, '
             'losses, any clocks allowed')
 PARTIAL = {
-    'C01': ['state-machine safety across nodes is a theorem only for the ' + FRAGMENT + '; with membership change, '
-            'dump files or restarts it rests on the handler-level theorems, the correspondence and the monitor'],
+    'C01': ['state-machine safety across nodes is a theorem only for the ' + FRAGMENT + '; with membership change '
+            'or restarts it rests on the handler-level theorems, the correspondence and the monitor'],
     'C02': ['"SUCCESS means committed and never undone": C02_success_is_committed_core2_partial - the entry whose application fired a '
             'SUCCESS callback sits at an index <= commit with the term it was subscribed with, and every voter that later commits that '
             'index holds the same entry - and C02_success_is_committed_core2_direct - for a command that was never forwarded that entry '
             'carries the submitted command - both for the fragment of Props/TierC2.v (static membership, no dump file, commands smaller than a '
-            'batch, voters never restart; compaction and snapshot install included); the forwarded case of the id -> command link '
-            '(C02_success_is_committed_core2_full) is not proved; outside the fragment: correspondence + monitor'],
+            'batch, voters never restart; compaction and snapshot install included); C02_success_is_committed_core3_forwarded covers forwarded '
+            'commands of voters on the fragment of Props/TierC3.v; for a read-only node that restarts under the same identity it is '
+            'refuted (request ids restart at 1: C02_..._forwarded_readonly_refuted; the real transport gives a restarted observer a '
+            'new identity); outside the fragment: correspondence + monitor'],
     'C03': ['election safety: all runs with static membership, no dump file, no restart of voters; leader completeness: ' + FRAGMENT],
     'C04': ['majority-backed commit and log matching across nodes: ' + FRAGMENT + '; applied index monotone: every message handler and '
             'every tick except the restart path (first tick after a restart loads the dump)'],
@@ -190,9 +193,10 @@ PARTIAL = {
             'elections: C18_noninterference_refuted) and proved for the leader phase; what the property states (no vote, no leadership, '
             'never counted) is proved for all reachable states'],
     'C20': ['"no commit while cut off": commit bound for every reachable leader state (C20_no_commit_when_cut_reachable) and no SUCCESS '
-            'for a callback waiting on an index above the frozen majority (C20_no_success_when_cut); the version with K = the '
-            'leader\'s log end (nothing submitted after the cut is acknowledged: C20_no_success_when_cut_full) needs match_idx <= log '
-            'end as a reachable-state invariant and is not proved; C20_bound_reachable_full has no state hypothesis left'],
+            'for a callback waiting on an index above the frozen majority (C20_no_success_when_cut); with K = the leader\'s log end '
+            '(nothing submitted after the cut is acknowledged: C20_no_success_when_cut_full) on the fragment of Props/TierC3.v, where '
+            'commit <= log end and match_idx <= log end are proved (C20_leader_bounds); C20_bound_reachable_full has no state '
+            'hypothesis left'],
 }
 
 
